@@ -131,7 +131,8 @@ def execute_trace(root, path):
 def observe(ops, root, xpaths=()):
     nodes = build(ops)
     r = nodes[root]
-    out = ["items=" + res(lambda: [n.k for n in r.items()], ints)]
+    out = ["wf=%d" % wf(ops, root), "prod=%d" % productive(ops), "acyc=%d" % acyclic(ops),
+           "items=" + res(lambda: [n.k for n in r.items()], ints)]
     entries = []
     status = "ok:"
     gen = r.generate_paths()
@@ -197,6 +198,53 @@ def wf(ops, root):
                 seen.add(y)
                 st.append(y)
     return len(seen) == n
+
+
+def _tables(ops):
+    kinds = [o for o in ops if o[0] != 'T']
+    outs = {i: [] for i in range(len(kinds))}
+    for o in ops:
+        if o[0] == 'T':
+            outs[o[1]].append(o[2])
+    return kinds, outs
+
+
+def vc_set(ops):
+    """nodes that have a completion made of valid leaves only (least fixed point)"""
+    kinds, outs = _tables(ops)
+    vc = [False] * len(kinds)
+    changed = True
+    while changed:
+        changed = False
+        for i, k in enumerate(kinds):
+            if vc[i]:
+                continue
+            if k[0] == 'L':
+                v = bool(k[1])
+            elif k[0] == 'R':
+                v = False
+            elif k[1]:
+                v = all(vc[t] for t in outs[i])
+            else:
+                v = any(vc[t] for t in outs[i])
+            if v:
+                vc[i] = True
+                changed = True
+    return vc
+
+
+def productive(ops):
+    kinds, _ = _tables(ops)
+    vc = vc_set(ops)
+    return all(vc[i] for i, k in enumerate(kinds) if k[0] == 'D')
+
+
+def acyclic(ops):
+    kinds, outs = _tables(ops)
+    safe = [False] * len(kinds)
+    for _ in range(len(kinds)):
+        safe = [all(safe[t] for t in outs[i]) for i in range(len(kinds))]
+    return all(safe)
 
 
 def random_program(rng: random.Random, max_nodes=10, allow_bad=True):
